@@ -10,6 +10,7 @@ package verify
 //@   assigns[C09] nothing
 
 //@ func EndorsementProto
+//@   modifies pbsrc, pbok
 //@   requires endorsement != nil && opts != nil
 //@   ensures[C01] err == nil ==> authentic(old(val(endorsement.SerializedUefiGolden)), old(val(endorsement.Signature)), old(opts.RootsOfTrust), old(opts.Now))
 //@   ensures[C02] err == nil && old(len(opts.ExpectedUefiSha384)) != 0 ==> old(val(opts.ExpectedUefiSha384)) == pb("VMGoldenMeasurement.Digest", old(val(endorsement.SerializedUefiGolden)))
@@ -17,6 +18,7 @@ package verify
 //@   assigns[C09] nothing
 
 //@ func Endorsement
+//@   modifies pbsrc, pbok
 //@   requires opts != nil
 //@   ensures[C01] err == nil ==> authenticSer(old(val(serializedEndorsement)), old(opts.RootsOfTrust), old(opts.Now))
 //@   ensures[C02] err == nil && old(opts.SNP) != nil ==> exists(g, *epb.VMGoldenMeasurement, g != nil && pbok[g] && snpEndorsed(g, old(opts.SNP.ExpectedLaunchVMSAs), old(val(opts.SNP.Measurement)), old(opts.SNP.Measurement == nil)))
@@ -50,6 +52,7 @@ package verify
 //@   ensures[C01,C02] vfFn == result && vfRoots == opts.RootsOfTrust && vfNow == opts.Now && vfEndorsement == opts.Endorsement
 
 //@ func SNPFamilyValidateFunc$1
+//@   modifies pbsrc, pbok, lastGot
 //@   requires opts != nil
 //@   sweep[C07]
 //@   ensures[C01] err == nil && old(opts.Endorsement) != nil ==> authentic(old(val(opts.Endorsement.SerializedUefiGolden)), old(val(opts.Endorsement.Signature)), old(opts.RootsOfTrust), old(opts.Now))
